@@ -1874,7 +1874,8 @@ func (query *Query) IsDual() bool {
 }
 
 func RegexComparison(left any, pattern string) (bool, error) {
-	regExpr := strings.ReplaceAll(strings.ToLower(pattern), "_", ".")
+	regExpr := regexp.QuoteMeta(strings.ToLower(pattern))
+	regExpr = strings.ReplaceAll(regExpr, "_", ".")
 	regExpr = strings.ReplaceAll(regExpr, "%", ".*")
 	regExpr = "^" + regExpr + "$"
 	return regexp.Match(regExpr, []byte(strings.ToLower(fmt.Sprintf("%v", left))))
